@@ -4,7 +4,7 @@ From Coq Require Import ExtrOcamlBasic.
 From MPC Require Import Num Species GenSpecies GenMixture RefEnergy Gibbs Retry.
 Extraction "kernels_mix.ml"
   mkNum mkUnits mkSpecies
-  density species_enthalpies enthalpy
+  density species_enthalpies enthalpy heat_capacity heat_capacity_default_delta
   dE_list E0_list reference_energies
   constraint_cols bvec mu_list kkt_species_residuals kkt_constraint_residuals
   relax_factor relaxed stop_quantity number_densities elements solve_control.
